@@ -609,7 +609,8 @@ func c18xGenerate(co *caseOut, r *rng, cf *commonFlags) {
 			c18xRun(co, "check_dec", c18xInput{S: sp(string(ms))})
 		}
 	}
-	for _, s := range []string{"", "1", "11", "111", "2", "z", "1z", "zzzzzzzzzzz", "3yQ", "0", "Il"} {
+	// (the Base58Check form of the empty payload: four checksum bytes only, "missing checksum" for CheckDecode)
+	for _, s := range []string{"", "1", "11", "111", "2", "z", "1z", "zzzzzzzzzzz", "3yQ", "0", "Il", base58.CheckEncode(nil), base58.CheckEncode([]byte{0}), base58.CheckEncode([]byte{0, 0})} {
 		c18xRun(co, "b58_dec", c18xInput{S: sp(s)})
 		c18xRun(co, "check_dec", c18xInput{S: sp(s)})
 	}
